@@ -345,7 +345,6 @@ Qed.
 
 (* ================================================================== JSON face *)
 
-Definition jkey (j : json) : option (list Z) := nums j.
 
 Definition parse_hlsl (j : json) : hlsl_opts :=
   mk_hopts (match field_arr "map" j with
